@@ -16,7 +16,11 @@ import Postcard.Model.CallTree
   * impls/mod.rs (`DataModelType`), schema/owned.rs (`OwnedDataModelType`),
     key/mod.rs (`Key`),
   * source/postcard-derive/src/schema.rs (`#[derive(Schema)]`: `generate_type`,
-    `generate_struct`, `generate_variants`).
+    `generate_struct`, `generate_variants`).  `schemaOf` takes a flag
+    `repaired : Bool`: `schemaOf true` is the CURRENT derive (field and variant
+    names are `ident.unraw().to_string()`), `schemaOf false` the derive before
+    the raw-identifier repair (`ident.to_string()`, keeping `r#`).  The flag
+    affects nothing but the field / variant names of derived types.
   There is NO `Schema` impl for `usize`, `isize`, `&mut T`, `Box<T>`, `Cow`,
   `Rc`/`Arc`, `RangeFull`/`RangeToInclusive`, `NaiveDateTime` & co., tuples of
   arity 0 (that is `()`) or > 6; these are therefore not in `RTy`.
@@ -44,14 +48,31 @@ structure Ident where
   name : Name
   deriving Repr, Inhabited
 
-/-- `#[derive(Schema)]` uses `ident.to_string()` (postcard-derive/src/schema.rs:
-`name.to_string()`, `v.ident.to_string()`, `f.ident.as_ref().unwrap().to_string()`),
-which for a raw identifier INCLUDES the `r#` prefix. -/
-def Ident.schemaName (i : Ident) : Name := if i.raw then ascii "r#" ++ i.name else i.name
+/-- `ident.to_string()`: for a raw identifier this INCLUDES the `r#` prefix. -/
+def Ident.rawName (i : Ident) : Name := if i.raw then ascii "r#" ++ i.name else i.name
+
+/-- `ident.unraw().to_string()`: the identifier without any `r#` prefix. -/
+def Ident.unrawName (i : Ident) : Name := i.name
+
+/-- the name `#[derive(Schema)]` gives a FIELD or a VARIANT
+(postcard-derive/src/schema.rs, `generate_struct` / `generate_variants` /
+the `Data::Enum` arm of `generate_type`).
+* `repaired = true` — the CURRENT derive: `v.ident.unraw().to_string()`,
+  `f.ident.as_ref().unwrap().unraw().to_string()`;
+* `repaired = false` — the derive BEFORE the repair: `v.ident.to_string()`,
+  `f.ident.as_ref().unwrap().to_string()`, which kept the `r#` prefix of a raw
+  identifier (see `C14.raw_ident_not_conforms`). -/
+def Ident.schemaName (repaired : Bool) (i : Ident) : Name :=
+  if repaired then i.unrawName else i.rawName
+
+/-- the name `#[derive(Schema)]` gives the struct / enum TYPE: `name.to_string()`
+(`generate_type(&input.data, span, name.to_string())`), before and after the
+repair; it keeps the `r#` prefix.  Type names are not compared by `conforms`. -/
+def Ident.schemaTypeName (i : Ident) : Name := i.rawName
 
 /-- serde_derive names types, variants and fields by `ident.unraw().to_string()`
 (serde_derive/src/internals/attr.rs `Name::from(&unraw(ident))`). -/
-def Ident.serdeName (i : Ident) : Name := i.name
+def Ident.serdeName (i : Ident) : Name := i.unrawName
 
 /-- the identifier is not a raw identifier -/
 def Ident.plain (i : Ident) : Bool := !i.raw
@@ -108,8 +129,11 @@ def iSchema : IntW → Schema
   | .w8 => .i8 | .w16 => .i16 | .w32 => .i32 | .w64 => .i64 | .w128 => .i128
 
 mutual
-/-- `<T as Schema>::SCHEMA` -/
-def schemaOf : RTy → Schema
+/-- `<T as Schema>::SCHEMA`.  `repaired` selects the version of
+`#[derive(Schema)]` (see `Ident.schemaName`): `schemaOf true` is the current
+(repaired) derive, `schemaOf false` the derive before the raw-identifier repair.
+The flag only affects derived structs / enums. -/
+def schemaOf (repaired : Bool) : RTy → Schema
   | .uint w => uSchema w
   | .sint w => iSchema w
   | .nonZeroU w => uSchema w                          -- NonZeroU8: DataModelType::U8, …
@@ -120,63 +144,68 @@ def schemaOf : RTy → Schema
   | .char => .char
   | .str => .string
   | .unit => .unit
-  | .tuple ts => .tuple (schemaOfList ts)             -- Tuple(&[$($generic::SCHEMA),*])
-  | .option t => .option (schemaOf t)
+  | .tuple ts => .tuple (schemaOfList repaired ts)    -- Tuple(&[$($generic::SCHEMA),*])
+  | .option t => .option (schemaOf repaired t)
   | .result t e =>
     .enum (ascii "Result<T, E>")
-      [.mk (ascii "Ok") (.newtype (schemaOf t)), .mk (ascii "Err") (.newtype (schemaOf e))]
-  | .ref t => schemaOf t                              -- T::SCHEMA
-  | .slice t => .seq (schemaOf t)
-  | .array t n => .tuple (List.replicate n (schemaOf t))   -- Tuple(&[T::SCHEMA; N])
+      [.mk (ascii "Ok") (.newtype (schemaOf repaired t)),
+       .mk (ascii "Err") (.newtype (schemaOf repaired e))]
+  | .ref t => schemaOf repaired t                     -- T::SCHEMA
+  | .slice t => .seq (schemaOf repaired t)
+  | .array t n => .tuple (List.replicate n (schemaOf repaired t))   -- Tuple(&[T::SCHEMA; N])
   | .range t =>
     .struct (ascii "Range<T>")
-      (.struct [.mk (ascii "start") (schemaOf t), .mk (ascii "end") (schemaOf t)])
+      (.struct [.mk (ascii "start") (schemaOf repaired t), .mk (ascii "end") (schemaOf repaired t)])
   | .rangeInclusive t =>
     .struct (ascii "RangeInclusive<T>")
-      (.struct [.mk (ascii "start") (schemaOf t), .mk (ascii "end") (schemaOf t)])
-  | .rangeFrom t => .struct (ascii "RangeFrom<T>") (.struct [.mk (ascii "start") (schemaOf t)])
-  | .rangeTo t => .struct (ascii "RangeTo<T>") (.struct [.mk (ascii "end") (schemaOf t)])
-  | .vec t => .seq (schemaOf t)
+      (.struct [.mk (ascii "start") (schemaOf repaired t), .mk (ascii "end") (schemaOf repaired t)])
+  | .rangeFrom t =>
+    .struct (ascii "RangeFrom<T>") (.struct [.mk (ascii "start") (schemaOf repaired t)])
+  | .rangeTo t => .struct (ascii "RangeTo<T>") (.struct [.mk (ascii "end") (schemaOf repaired t)])
+  | .vec t => .seq (schemaOf repaired t)
   | .string => .string
   | .pathBuf => .string
-  | .hashMap k v => .map (schemaOf k) (schemaOf v)
-  | .btreeMap k v => .map (schemaOf k) (schemaOf v)
-  | .hashSet t => .seq (schemaOf t)
-  | .btreeSet t => .seq (schemaOf t)
-  | .hVec07 t _ => .seq (schemaOf t)
+  | .hashMap k v => .map (schemaOf repaired k) (schemaOf repaired v)
+  | .btreeMap k v => .map (schemaOf repaired k) (schemaOf repaired v)
+  | .hashSet t => .seq (schemaOf repaired t)
+  | .btreeSet t => .seq (schemaOf repaired t)
+  | .hVec07 t _ => .seq (schemaOf repaired t)
   | .hString07 _ => .string
-  | .hVec08 t _ => .seq (schemaOf t)
+  | .hVec08 t _ => .seq (schemaOf repaired t)
   | .hString08 _ => .string
   | .uuid => .byteArray
   | .dateTime => .string
-  | .matrix t r c => .tuple (List.replicate (c * r) (schemaOf t))  -- flatten(&[[T::SCHEMA; R]; C])
+  | .matrix t r c =>                                  -- flatten(&[[T::SCHEMA; R]; C])
+    .tuple (List.replicate (c * r) (schemaOf repaired t))
   | .key => .struct (ascii "Key") (.newtype (.tuple (List.replicate 8 .u8)))
   | .dataModelType => .schema
   | .ownedDataModelType => .schema
-  | .dstruct id fields => .struct id.schemaName (schemaOfFields fields)
-  | .denum id variants => .enum id.schemaName (schemaOfVariants variants)
+  | .dstruct id fields => .struct id.schemaTypeName (schemaOfFields repaired fields)
+  | .denum id variants => .enum id.schemaTypeName (schemaOfVariants repaired variants)
 termination_by structural r => r
-def schemaOfList : List RTy → List Schema
+def schemaOfList (repaired : Bool) : List RTy → List Schema
   | [] => []
-  | t :: ts => schemaOf t :: schemaOfList ts
+  | t :: ts => schemaOf repaired t :: schemaOfList repaired ts
 termination_by structural ts => ts
 /-- `generate_struct` / `generate_variants` (textually the same function):
 `Fields::Unit` → `Data::Unit`; `Fields::Unnamed` with exactly one field →
 `Data::Newtype`, otherwise (0, 2, 3, …) → `Data::Tuple`; `Fields::Named` →
 `Data::Struct`, in declaration order. -/
-def schemaOfFields : DeriveFields → SData
+def schemaOfFields (repaired : Bool) : DeriveFields → SData
   | .unit => .unit
-  | .unnamed [t] => .newtype (schemaOf t)
-  | .unnamed ts => .tuple (schemaOfList ts)
-  | .named fs => .struct (schemaOfNamed fs)
+  | .unnamed [t] => .newtype (schemaOf repaired t)
+  | .unnamed ts => .tuple (schemaOfList repaired ts)
+  | .named fs => .struct (schemaOfNamed repaired fs)
 termination_by structural d => d
-def schemaOfNamed : List DeriveField → List SField
+def schemaOfNamed (repaired : Bool) : List DeriveField → List SField
   | [] => []
-  | .mk id t :: fs => .mk id.schemaName (schemaOf t) :: schemaOfNamed fs
+  | .mk id t :: fs =>
+    .mk (id.schemaName repaired) (schemaOf repaired t) :: schemaOfNamed repaired fs
 termination_by structural fs => fs
-def schemaOfVariants : List DeriveVariant → List SVariant
+def schemaOfVariants (repaired : Bool) : List DeriveVariant → List SVariant
   | [] => []
-  | .mk id d :: vs => .mk id.schemaName (schemaOfFields d) :: schemaOfVariants vs
+  | .mk id d :: vs =>
+    .mk (id.schemaName repaired) (schemaOfFields repaired d) :: schemaOfVariants repaired vs
 termination_by structural vs => vs
 end
 
@@ -368,12 +397,10 @@ end
 /-! ## Scope -/
 
 mutual
-/-- `r` is a type that really has both impls, and the derive input is one for
-which `#[derive(Schema)]` and `#[derive(Serialize)]` agree:
+/-- `r` is a type that really has both impls:
 * tuples: arity 1–6 (the `impl_schema!(tuple => …)` arms);
-* arrays: `N ≤ 32` (serde implements `Serialize` for `[T; 0]` … `[T; 32]` only);
-* derived types: no raw identifier (`r#type`) as a FIELD or VARIANT name
-  (`Ident.plain`) — see `C14.raw_ident_not_conforms`. -/
+* arrays: `N ≤ 32` (serde implements `Serialize` for `[T; 0]` … `[T; 32]` only).
+No condition on identifiers: raw identifiers (`r#type`) are in scope. -/
 def RTy.wf : RTy → Bool
   | .tuple ts => decide (1 ≤ ts.length) && decide (ts.length ≤ 6) && RTy.wfList ts
   | .option t => t.wf
@@ -408,11 +435,65 @@ def DeriveFields.wf : DeriveFields → Bool
 termination_by structural d => d
 def DeriveField.wfList : List DeriveField → Bool
   | [] => true
-  | .mk id t :: fs => id.plain && t.wf && DeriveField.wfList fs
+  | .mk _ t :: fs => t.wf && DeriveField.wfList fs
 termination_by structural fs => fs
 def DeriveVariant.wfList : List DeriveVariant → Bool
   | [] => true
-  | .mk id d :: vs => id.plain && d.wf && DeriveVariant.wfList vs
+  | .mk _ d :: vs => d.wf && DeriveVariant.wfList vs
+termination_by structural vs => vs
+end
+
+/-- the derive version `repaired` names the field / variant `i` as serde_derive
+does: always for the repaired derive, only for a non-raw identifier before. -/
+def Ident.sameAsSerde (repaired : Bool) (i : Ident) : Bool := repaired || i.plain
+
+mutual
+/-- the derive inputs on which `#[derive(Schema)]` (version `repaired`) and
+`#[derive(Serialize)]` agree on names: every FIELD and VARIANT identifier
+anywhere in `r` satisfies `Ident.sameAsSerde repaired`.
+`RTy.namesOk true r` holds for every `r` (`RTy.namesOk_true`);
+`RTy.namesOk false r` says: no raw identifier as a field or variant name. -/
+def RTy.namesOk (repaired : Bool) : RTy → Bool
+  | .tuple ts => RTy.namesOkList repaired ts
+  | .option t => t.namesOk repaired
+  | .result t e => t.namesOk repaired && e.namesOk repaired
+  | .ref t => t.namesOk repaired
+  | .slice t => t.namesOk repaired
+  | .array t _ => t.namesOk repaired
+  | .range t => t.namesOk repaired
+  | .rangeInclusive t => t.namesOk repaired
+  | .rangeFrom t => t.namesOk repaired
+  | .rangeTo t => t.namesOk repaired
+  | .vec t => t.namesOk repaired
+  | .hashMap k v => k.namesOk repaired && v.namesOk repaired
+  | .btreeMap k v => k.namesOk repaired && v.namesOk repaired
+  | .hashSet t => t.namesOk repaired
+  | .btreeSet t => t.namesOk repaired
+  | .hVec07 t _ => t.namesOk repaired
+  | .hVec08 t _ => t.namesOk repaired
+  | .matrix t _ _ => t.namesOk repaired
+  | .dstruct _ fields => fields.namesOk repaired
+  | .denum _ variants => DeriveVariant.namesOkList repaired variants
+  | _ => true
+termination_by structural r => r
+def RTy.namesOkList (repaired : Bool) : List RTy → Bool
+  | [] => true
+  | t :: ts => t.namesOk repaired && RTy.namesOkList repaired ts
+termination_by structural ts => ts
+def DeriveFields.namesOk (repaired : Bool) : DeriveFields → Bool
+  | .unit => true
+  | .unnamed ts => RTy.namesOkList repaired ts
+  | .named fs => DeriveField.namesOkList repaired fs
+termination_by structural d => d
+def DeriveField.namesOkList (repaired : Bool) : List DeriveField → Bool
+  | [] => true
+  | .mk id t :: fs =>
+    id.sameAsSerde repaired && t.namesOk repaired && DeriveField.namesOkList repaired fs
+termination_by structural fs => fs
+def DeriveVariant.namesOkList (repaired : Bool) : List DeriveVariant → Bool
+  | [] => true
+  | .mk id d :: vs =>
+    id.sameAsSerde repaired && d.namesOk repaired && DeriveVariant.namesOkList repaired vs
 termination_by structural vs => vs
 end
 
